@@ -424,7 +424,11 @@ def o_outcome(v: View, stats=None, propagating=False):
         yield "execute-no-outcome", f"execute() delivered {kind} {val!r}"
         return
     o = val
-    if how == "special" and not propagating:
+    if propagating:
+        return  # a caller callback raised: the property only limits what may propagate
+    if how == "special":
+        if v.no_retry and s.out[1] in ("nested_exh", "nested_open") and not o.ok and o.last_exception is s.obj and o.attempts == v.nops:
+            return  # Policy(retry=None) reports the operation's exception instead of raising it
         yield "special-swallowed", f"operation raised {s.obj!r} but execute() returned {o!r}"
         return
     want_ok = how == "value"
@@ -448,7 +452,7 @@ def o_outcome(v: View, stats=None, propagating=False):
         return
     if o.attempts != v.nops:
         yield "outcome-wrong-attempts", f"attempts={o.attempts} but the operation was invoked {v.nops} times"
-    no_retry = bool(cfg.get("no_retry"))
+    no_retry = v.no_retry
     if not want_ok and not no_retry:
         if o.stop_reason is None:
             yield "outcome-missing-stop-reason", f"not ok with stop_reason=None ({how})"
@@ -612,7 +616,7 @@ def o_events(v: View, stats=None):
     deco = v.rec.entry.lstrip("a").startswith("deco")
     if deco and opname is None:
         opname = "aop" if v.rec.entry.startswith("a") else "op"
-    if not rejected and not cfg.get("no_retry"):
+    if not rejected and not v.no_retry:
         names = [m[1] for m in mets]
         terms = [n for n in names if n in TERMINALS]
         if len(terms) != 1:
@@ -705,7 +709,7 @@ def o_events(v: View, stats=None):
                 if ra is not None and m[1] != "retry":
                     yield "retry-after-on-non-retry-log", f"log {l[1:]}"
     # timeline
-    if v.is_execute and kind == "return" and getattr(val, "timeline", None) is not None and not cfg.get("no_retry"):
+    if v.is_execute and kind == "return" and getattr(val, "timeline", None) is not None and not v.no_retry:
         evs = val.timeline.events
         if len(evs) != len(mets):
             yield "timeline-count-differs", f"timeline {[e.event for e in evs]} vs metric {[m[1] for m in mets]}"
